@@ -80,6 +80,7 @@ func (m *Mocker) Mock(w io.Writer, namePairs ...string) error {
 			MockName:      mockName,
 			Methods:       methods,
 			TypeParams:    typeParams,
+			GenericEnsure: !validTypeArgs(m.registry.LookupType(name), typeParams),
 		}
 	}
 
@@ -142,6 +143,49 @@ func (m *Mocker) typeParams(tparams *types.TypeParamList) []template.TypeParamDa
 	}
 
 	return tpd
+}
+
+// validTypeArgs reports whether the type arguments the implementation
+// check is written with (the explicit constraint type or the constraint
+// itself) are valid for the generic interface: they have to be printable
+// without package qualifier when they are taken from a union, they must
+// not be constraint interfaces, and they have to satisfy the constraints.
+func validTypeArgs(generic types.Type, typeParams []template.TypeParamData) bool {
+	if len(typeParams) == 0 || generic == nil {
+		return true
+	}
+	args := make([]types.Type, len(typeParams))
+	for i, tp := range typeParams {
+		args[i] = tp.Constraint
+		if args[i] == nil {
+			args[i] = tp.Var.Type()
+		} else if mentionsNamedType(args[i]) {
+			return false // printed with String(), i.e. with the full package path
+		}
+		if iface, ok := args[i].Underlying().(*types.Interface); ok && !iface.IsMethodSet() {
+			return false
+		}
+	}
+	_, err := types.Instantiate(types.NewContext(), generic, args, true)
+	return err == nil
+}
+
+func mentionsNamedType(t types.Type) bool {
+	switch t := t.(type) {
+	case *types.Basic:
+		return false
+	case *types.Pointer:
+		return mentionsNamedType(t.Elem())
+	case *types.Slice:
+		return mentionsNamedType(t.Elem())
+	case *types.Array:
+		return mentionsNamedType(t.Elem())
+	case *types.Map:
+		return mentionsNamedType(t.Key()) || mentionsNamedType(t.Elem())
+	case *types.Chan:
+		return mentionsNamedType(t.Elem())
+	}
+	return true
 }
 
 func explicitConstraintType(typeParam *types.Var) (t types.Type) {
